@@ -281,6 +281,15 @@ class Project:
         for m in self.modules.values():
             for f in m.all_funcs:
                 self._func_by_node[id(f.node)] = f
+        self.inlined_helpers = 0
+        try:
+            from .canon import reference_table
+            from .inline import inline_new_helpers
+            ref = reference_table()
+            if ref:
+                self.inlined_helpers = inline_new_helpers(self, ref)
+        except Exception as e:  # pragma: no cover - inlining is an aid, never a reason to fail
+            self.parse_errors.append(f"helper inlining skipped: {e!r}")
         self._keywordise_calls()
         # every call knows the (innermost) function it sits in, so that accessors can look through single-use temporaries (wire.kw)
         for m in self.modules.values():
